@@ -91,6 +91,59 @@ func TestReplaceRace(t *testing.T) {
 	stop.Store(true)
 	wg.Wait()
 }
+
+// chained replacement: the SOURCE of live.Replace(staging) is itself being replaced concurrently
+func TestChainedReplaceRace(t *testing.T) {
+	pa, ka, _ := ed25519.GenerateKey(nil)
+	pb, _, _ := ed25519.GenerateKey(nil)
+	pc, _, _ := ed25519.GenerateKey(nil)
+	_, kz, _ := ed25519.GenerateKey(nil)
+	live, _ := mtls.ValidPublicKeysFromEd25519(pa)
+	staging, _ := mtls.ValidPublicKeysFromEd25519(pa, pb)
+	s1, _ := mtls.ValidPublicKeysFromEd25519(pa, pb)
+	s2, _ := mtls.ValidPublicKeysFromEd25519(pc, pa)
+	verify := live.VerifyPeerCertificate()
+	ca, cz := cert(t, ka), cert(t, kz)
+	var stop atomic.Bool
+	var wg sync.WaitGroup
+	wg.Add(3)
+	go func() {
+		defer wg.Done()
+		for i := 0; !stop.Load(); i++ {
+			if i%2 == 0 {
+				staging.Replace(s2)
+			} else {
+				staging.Replace(s1)
+			}
+		}
+	}()
+	go func() {
+		defer wg.Done()
+		for !stop.Load() {
+			live.Replace(staging)
+		}
+	}()
+	go func() {
+		defer wg.Done()
+		for !stop.Load() {
+			if err := verify(ca, nil); err != nil {
+				t.Errorf("INVARIANT key in every list rejected: %v", err)
+				return
+			}
+			if err := verify(cz, nil); err == nil {
+				t.Errorf("INVARIANT key in no list accepted")
+				return
+			}
+			if n := len(live.Keys()); n != 1 && n != 2 {
+				t.Errorf("INVARIANT torn Keys(): %d", n)
+				return
+			}
+		}
+	}()
+	time.Sleep(1200 * time.Millisecond)
+	stop.Store(true)
+	wg.Wait()
+}
 `
 
 func mtlsRunRace() J {
